@@ -81,6 +81,75 @@ def check_name_value(j1939, v):
     return None
 
 
+class _StubEcu:
+    """stands in for the ECU a controller application sends through"""
+    def __init__(self):
+        self.sent = []
+
+    def send_message(self, can_id, ext, data, *a, **k):
+        self.sent.append((can_id, list(data)))
+
+    def __getattr__(self, name):
+        return lambda *a, **k: None
+
+
+def check_arbitration(j1939, v1, v2, waiting):
+    """a CA with NAME v1 that owns (or is claiming) address 128 receives an ADDRESS CLAIMED for 128 from NAME v2: it keeps the
+    address iff v1 < v2 as 64-bit VALUES (reserved bit read as 0), loses iff v1 > v2, ignores an equal NAME"""
+    n1 = j1939.Name(value=v1)
+    n1.arbitrary_address_capable = 0          # a loser then ends in CANNOT_CLAIM: the outcome is a single state
+    ca = j1939.ControllerApplication(n1, 128)
+    ecu = _StubEcu()
+    ca._ecu = ecu
+    St = j1939.ControllerApplication.State
+    ca._device_address_state = St.WAIT_VETO if waiting else St.NORMAL
+    ca._device_address_announced = 128
+    ca._device_address = 254 if waiting else 128
+    own = n1.value
+    other = v2 & ~(1 << 48)
+    ca._process_addressclaim(j1939.MessageId(can_id=(6 << 26) | (0xEEFF << 8) | 128), bytearray(v2.to_bytes(8, 'little')), 0.0)
+    st = ca._device_address_state
+    before = St.WAIT_VETO if waiting else St.NORMAL
+    if own < other:
+        ok = st == before and ecu.sent and ecu.sent[-1][0] & 0xFF == 128
+        exp = 'keep the address and repeat the claim'
+    elif own > other:
+        ok = st == St.CANNOT_CLAIM and ecu.sent and ecu.sent[-1][0] & 0xFF == 254
+        exp = 'give the address up (cannot-claim from 254)'
+    else:
+        ok = st == before and not ecu.sent
+        exp = 'ignore its own NAME'
+    if not ok:
+        return (f"arbitration: own NAME {own:#018x} vs contender {other:#018x} ({'waiting' if waiting else 'operational'}): expected to {exp}; "
+                f"state {st}, sent {[(hex(c), d) for c, d in ecu.sent[-1:]]}")
+    return None
+
+
+def arbitration_pairs(rng, n):
+    """NAME pairs whose order as integers differs from their order byte by byte from the least significant end, pairs that
+    differ in one field only, equal NAMEs, and random pairs"""
+    out = []
+    for _ in range(n):
+        k = rng.randrange(5)
+        a = rng.getrandbits(64) & ~(1 << 48) & ~(1 << 63)
+        if k == 0:
+            b = rng.getrandbits(64) & ~(1 << 63)
+        elif k == 1:                          # one byte up at the top, one byte down at the bottom
+            hi, lo = rng.randrange(4, 8), rng.randrange(0, 4)
+            b = a ^ (rng.randrange(1, 256) << (8 * hi)) ^ (rng.randrange(1, 256) << (8 * lo))
+            b &= ~(1 << 63) & ~(1 << 48)
+        elif k == 2:                          # a single field differs
+            f, pos, w = rng.choice([x for x in NAME_LAYOUT if x[0] not in ('reserved_bit', 'arbitrary_address_capable')])
+            b = a ^ (rng.randrange(1, 1 << w) << pos)
+        elif k == 3:
+            b = a
+        else:
+            b = a ^ (1 << rng.randrange(63))
+            b &= ~(1 << 48)
+        out.append((a, b, rng.random() < 0.3))
+    return out
+
+
 def guarded(fn, *a):
     """the codecs are total on their domain: an exception for a value of the domain is a failing input, not a harness error"""
     try:
@@ -127,12 +196,23 @@ def oracle(ctx, full):
         if r:
             add('name', r, dict(value=v))
             break
+    if not findings:
+        for (a, b, waiting) in arbitration_pairs(rng, 6000 if big else 800):
+            evals += 1
+            distinct.add(('arb', a, b, waiting))
+            r = guarded(check_arbitration, j1939, a, b, waiting)
+            if r:
+                add('arbitration', r, dict(own=a, contender=b, waiting=waiting))
+                break
     samples = [dict(can_id=hex(0x18FECA21), check='parse/compose round trip + SAE positions + from_message_id'),
                dict(name_value=hex(vals[-1]), check='value/fields/bytes round trips + J1939-81 bit positions')]
     return dict(findings=findings, evaluations=evals, distinct_nontrivial=len(distinct), samples=samples,
                 rule="identifiers: all single-bit / all-but-one-bit / boundary and seeded random 29-bit values; PGN: all 2*256*256 field tuples "
                      "(thorough or failing-input search) or boundaries + random (quick); NAME: single-bit, field-boundary and seeded random 64-bit "
-                     "values, each through value/fields/bytes constructors; distinct = distinct input values")
+                     "values, each through value/fields/bytes constructors; arbitration: a real controller application (operational or "
+                     "waiting out its veto) at address 128 receives a contending claim — NAME pairs whose integer order differs from their "
+                     "least-significant-byte-first order, single-field differences, equal NAMEs, random pairs: keeps iff own value < "
+                     "contender's value; distinct = distinct input values")
 
 
 def replay(ctx, path):
